@@ -162,7 +162,7 @@ def obligations(tier, rng):
     # a variable read twice by pointwise operators next to a variable with other break-points; and the same data objects evaluated twice
     C2 = ('const', 2.0)
     rep = [('and', ('leq', X, Y), ('leq', Y, C2)), ('or', ('sub', X, Y), Y), ('and', ('and', X, Y), Y), ('implies', ('geq', X, Y), ('neg', Y)),
-           ('add', ('mul', X, Y), Y), ('xor', ('iff', X, Y), X), ('geq', ('sub', X, Y), ('sub', Y, X)), ('always_t', ('and', ('leq', X, Y), ('leq', Y, C2)), 0, 1)]
+           ('add', ('mul', X, C2), Y), ('xor', ('iff', X, Y), X), ('geq', ('sub', X, Y), ('sub', Y, X)), ('always_t', ('and', ('leq', X, Y), ('leq', Y, C2)), 0, 1)]
     for f in rep:
         if f[0] == 'always_t':
             continue        # not in the closed-form fragment (two-variable operand): covered by C16/C19
